@@ -19,8 +19,13 @@ eighth of the timeout apart.
 Oracle (bounded liveness, K = 4 service rounds; derivation in RULE):
   * aligned: from the first round, after the server is up for good, that starts with the
     client not live (not connected, or cut off) at a time >= creation time of its current
-    socket + timeout, the client is live within K rounds - demanded only while those rounds lie
-    within one timeout of the first (otherwise the client legitimately begins another attempt);
+    socket + timeout (so its reconnect timer has expired: the timer is never restarted later
+    than the socket is created), the client is live within K rounds. When a connect to a
+    listening server needs 3 connect_ex calls (double latency 2) this is demanded only while
+    the K rounds lie within one timeout (a connect slower than the timeout is legitimately
+    given up); with latency <= 1 - always on loopback - it is demanded at any service rate.
+    A schedule event that kills an established connection is a new loss and cancels a
+    pending obligation;
   * tail: in the tail the client is live at the latest K rounds after the round at
     tail start + timeout;
   * whenever the client says it is connected (and not cut off) its socket really is connected
@@ -45,6 +50,7 @@ from vp.net import tcp2_doubles as dbl
 
 PROPERTY = "C27"
 LEVEL = "exploration"
+INPROCESS = True      # a case costs < 1 ms; forking 8 workers costs more than the whole quick search
 K = 4                 # rounds: [reopen] [connect_ex -> EINPROGRESS] [-> EALREADY] [-> 0]
 TAIL = 16 + K + 2     # rounds in the final always-up phase, 1/8 timeout apart
 RULE = ("Hypothesis-generated schedules (<= 24 steps of [dt in eighths of the timeout, event]) + fixed tail of %d rounds "
@@ -58,8 +64,9 @@ RULE = ("Hypothesis-generated schedules (<= 24 steps of [dt in eighths of the ti
         "successful connection; distinct = distinct schedule+parameters" % (TAIL, K))
 ASSUMPTIONS = [
     "reconnect timeout > 0 (timeout 0 disables the timer in the code) and no server-sent-event responses (they change the timer duration)",
-    "the liveness bound is demanded only when the K rounds lie within less than one timeout (a service period >= timeout "
-    "lets every round's expired timer abandon the attempt begun in the previous round; treated as outside the property's domain)",
+    "when a connect to a listening server takes 3 connect_ex calls (double latency 2) the liveness bound is demanded only "
+    "while the K rounds lie within one timeout (a connect slower than the reconnect timeout is legitimately abandoned); "
+    "with latency <= 1 (always on loopback) it is demanded at any service rate, including service period >= timeout",
     "a service round of a bare Client is serviceConnect(); serviceReceives(); serviceTxes(); of Patron / TcpClientStack it is serviceAll()",
     "doubles report only errnos the code lists as handled: EINPROGRESS, EALREADY, ECONNREFUSED, EINVAL, EISCONN, EAGAIN, ECONNRESET (never EPIPE)",
     "double: a SYN sent while the server black-holes is lost for ever (worst case of SYN retransmission back-off); connect latency <= 2 extra calls",
@@ -72,7 +79,7 @@ META = {
             "checked as a bounded-response property whose bound is derived from the connect code path, so a client that "
             "never reopens, reopens on every call, or keeps a stale address is reported with the schedule.",
     "note": "Trusts the harness socket doubles / loopback orchestration and the round-bound K=4. Absence of violations is "
-            "shown for the explored schedules only; service periods >= timeout are excluded from the liveness demand.",
+            "shown for the explored schedules only.",
     "technique": "Hypothesis-generated fault schedules with scripted socket doubles and real loopback listeners; bounded-liveness monitor",
     "design_ref": "DESIGN.md section 3, C27",
 }
@@ -169,8 +176,9 @@ def _plan_steps(case):
 class Monitor(object):
     """The oracle, shared by both engines. Fed once per round."""
 
-    def __init__(self, case, subj, tail0, upfrom, timeout):
+    def __init__(self, case, subj, tail0, upfrom, timeout, fast_connects):
         self.case = case
+        self.fast_connects = fast_connects   # every connect to a listening server completes by the 2nd connect_ex
         self.subj = subj
         self.kind = case["kind"]
         self.reconn = case["reconn"]
@@ -194,6 +202,10 @@ class Monitor(object):
         if sig not in self.reported:
             self.reported.add(sig)
             self.fails.append((sig, what))
+
+    def connection_killed(self):
+        """the schedule cut an established connection: a new loss, the clock of the statement starts again"""
+        self.oblig = None
 
     def before(self, i, t, created):
         """start of round i at time t; created = creation time of the client's current socket"""
@@ -224,15 +236,23 @@ class Monitor(object):
             if live:
                 self.classes.add("aligned-obligation-discharged:" + st0)
                 self.oblig = None
-            elif t - ts >= self.T:
+            elif t - ts >= self.T and not self.fast_connects:
+                # a connect that needs 3 calls cannot finish inside one reconnect period at this service rate
                 self.classes.add("aligned-obligation-outside-period")
                 self.oblig = None
             elif i - s + 1 >= K:
-                self.fail("no-reconnect@%s:%s" % (self.kind, st0),
+                slow = t - ts >= self.T
+                how = "never-reopened-after-cutoff" if c.cutoff else \
+                    ("attempts-abandoned:service-period>=timeout" if slow else "unconnected")
+                # the abandoned-attempt path is Client.serviceConnect whatever wraps the client
+                self.fail("no-reconnect@%s:%s" % ("any" if how.startswith("attempts") else self.kind, how),
                           "%s (reconnectable, timeout %s) not connected %d service rounds after round %d (t=%s): it was %s, "
                           "its socket was older than the timeout and the server has been listening since round %d; now "
-                          "connected=%r cutoff=%r" % (self.kind, self.T, K, s, ts, st0, self.upfrom, c.connected, c.cutoff))
+                          "(t=%s) connected=%r cutoff=%r" % (self.kind, self.T, K, s, ts, st0, self.upfrom, t,
+                                                             c.connected, c.cutoff))
                 self.oblig = None
+            elif t - ts >= self.T:
+                self.classes.add("aligned-obligation-spanning-more-than-timeout")
         # tail obligation
         if self.reconn and self.tail_due is not None and not self.tail_done:
             if live:
@@ -240,7 +260,7 @@ class Monitor(object):
                 self.classes.add("tail-live")
             elif i - self.tail_due + 1 >= K:
                 self.tail_done = True
-                self.fail("no-reconnect@%s:%s" % (self.kind, state),
+                self.fail("no-reconnect@%s:%s" % (self.kind, "never-reopened-after-cutoff" if c.cutoff else "unconnected"),
                           "%s (reconnectable, timeout %s) still %s at t=%s although the server has been listening since "
                           "t=%s and rounds came every timeout/8 (more than timeout + %d rounds): connected=%r cutoff=%r"
                           % (self.kind, self.T, state, t, self.tail_t0, K, c.connected, c.cutoff))
@@ -311,7 +331,7 @@ def run_double(case):
         except Exception as ex:
             return [("exception-%s@%s:%s" % (type(ex).__name__, case["kind"], _site(ex)),
                      "constructing %s raised %r" % (case["kind"], ex))], False, classes
-        mon = Monitor(case, subj, tail0, upfrom, T)
+        mon = Monitor(case, subj, tail0, upfrom, T, fast_connects=max(case["lat"]) <= 1)
         pusher = Pusher(subj, net)
         units = 0
         try:
@@ -326,11 +346,13 @@ def run_double(case):
                 elif ev in DOWN:
                     if net.established:
                         classes.add("server-down-kills-connection")
+                        mon.connection_killed()
                     net.set_mode(ev, case.get("downcut", "eof"))
                     classes.add("down:" + ev)
                 elif ev in ("cut-eof", "cut-rst"):
                     if net.cut_all(ev[4:]):
                         classes.add("event:" + ev)
+                        mon.connection_killed()
                 elif ev in ("push", "push-part"):
                     data = pusher.next(ev == "push-part")
                     if data and net.push(data):
@@ -498,7 +520,7 @@ def run_loop(case):
         except Exception as ex:
             return [("exception-%s@%s:%s" % (type(ex).__name__, case["kind"], _site(ex)),
                      "constructing %s raised %r" % (case["kind"], ex))], False, classes
-        mon = Monitor(case, subj, tail0, upfrom, T)
+        mon = Monitor(case, subj, tail0, upfrom, T, fast_connects=True)
         cur = subj.client.cs
         if cur is not None:
             socks_seen, created = 1, 0.0
@@ -518,6 +540,7 @@ def run_loop(case):
                 n = server.down(flavour) if ev.startswith("down") else server.cut(flavour)
                 if n:
                     classes.add("event:" + ev)
+                    mon.connection_killed()
                     if was and c.cs is not None:
                         _wait([c.cs], [], "FIN/RST delivery to the client")
             elif ev == "req":
@@ -545,9 +568,6 @@ def run_loop(case):
                 _wait([], [c.cs], "connect resolution")
             problem = None
             if subj.live:
-                if server.ls is not None and tuple(c.ca) not in server.peers():
-                    _wait([server.ls], [], "accept queue")
-                    server.accept_pending()
                 try:
                     sn, pn = c.cs.getsockname(), c.cs.getpeername()
                 except OSError as ex:
@@ -558,9 +578,14 @@ def run_loop(case):
                         problem = ("stale-address", "ca=%r ha=%r but live socket has %r -> %r" % (c.ca, c.ha, sn, pn))
                     elif case["kind"] == "stack" and tuple(subj.obj.local.ha) != sn:
                         problem = ("stale-address", "stack.local.ha=%r but live socket is bound to %r" % (subj.obj.local.ha, sn))
-                    elif server.ls is not None and tuple(c.ca) not in server.peers():
-                        problem = ("stale-address", "ca=%r is not the peer address of any connection the server accepted %r"
-                                   % (c.ca, server.peers()))
+                    elif server.ls is not None:
+                        # ca is the connected socket's own address, so the server must see that peer
+                        if sn not in server.peers():
+                            _wait([server.ls], [], "accept queue")
+                            server.accept_pending()
+                        if sn not in server.peers():
+                            raise Inconclusive("accept: peer %r not among accepted %r" % (sn, server.peers()))
+                        classes.add("server-side-peer-equals-ca")
             server.accept_pending()
             server.serve(RESPONSE if case["kind"] == "patron" else b"pong")
             mon.after(i, t, socks_seen, problem)
@@ -588,9 +613,9 @@ def run_case(case):
 
 # ------------------------------------------------------------------------------ generation
 DT = st.sampled_from([0, 1, 1, 1, 2, 2, 3, 4, 5, 7, 8, 8, 9, 12, 16, 24])
-EV_DOUBLE = st.sampled_from(["", "", "", "", "", "up", "up", "refuse", "blackhole", "blackhole", "cut-eof", "cut-rst",
-                             "push", "push-part", "req"])
-EV_LOOP = st.sampled_from(["", "", "", "", "up", "up", "down-fin", "down-rst", "cut-fin", "cut-rst", "req"])
+EV_DOUBLE = st.sampled_from(["", "", "", "", "up", "up", "up", "refuse", "blackhole", "blackhole", "cut-eof", "cut-eof",
+                             "cut-rst", "cut-rst", "push", "push-part", "req", "req"])
+EV_LOOP = st.sampled_from(["", "", "", "up", "up", "up", "down-fin", "down-rst", "cut-fin", "cut-fin", "cut-rst", "cut-rst", "req"])
 
 
 def double_cases():
@@ -603,7 +628,7 @@ def double_cases():
         "immediate": st.booleans(),
         "bsd": st.booleans(),
         "open": st.booleans(),
-        "start": st.sampled_from(["up", "refuse", "refuse", "blackhole", "blackhole"]),
+        "start": st.sampled_from(["up", "up", "refuse", "blackhole", "blackhole"]),
         "downcut": st.sampled_from(["eof", "rst"]),
         "steps": st.lists(st.tuples(DT, EV_DOUBLE).map(list), min_size=0, max_size=24),
     })
@@ -616,7 +641,7 @@ def loop_cases():
         "reconn": st.sampled_from([True, True, True, False]),
         "timeout": st.sampled_from(TIMEOUTS),
         "open": st.booleans(),
-        "start": st.sampled_from(["up", "down", "down"]),
+        "start": st.sampled_from(["up", "down"]),
         "steps": st.lists(st.tuples(DT, EV_LOOP).map(list), min_size=0, max_size=16),
     })
 
@@ -634,8 +659,8 @@ def _preload():
 def plan(tier):
     _preload()
     if tier == "quick":
-        return [{"part": "double", "i": i, "n": 70} for i in range(6)] + \
-               [{"part": "loop", "i": 100 + i, "n": 12} for i in range(2)]
+        return [{"part": "double", "i": i, "n": 100} for i in range(6)] + \
+               [{"part": "loop", "i": 100 + i, "n": 20} for i in range(2)]
     return [{"part": "double", "i": i, "n": 900} for i in range(13)] + \
            [{"part": "loop", "i": 100 + i, "n": 80} for i in range(3)]
 
